@@ -137,6 +137,14 @@ func c16prop(r *simkit.Run) {
 			rawReq = fmt.Sprintf("POST /res?x=1 HTTP/1.1\r\nHost: example.com\r\nContent-Length: %d\r\n\r\n%s", len(reqBody), reqBody)
 		}
 	}
+	// request targets other than the usual origin form, as a server accepts them from the wire: for these only the
+	// last clause is judged (a response or a closed connection, never a hang or a crash of the proxy)
+	oddTarget := ""
+	if fault == "none" && reqBody == nil && rapid.IntRange(0, 7).Draw(rt, "odd-target") == 0 {
+		oddTarget = rapid.SampledFrom([]string{"CONNECT 192.0.2.9:8443 HTTP/1.1\r\nHost: 192.0.2.9:8443\r\n\r\n", "CONNECT example.com:443 HTTP/1.1\r\nHost: example.com:443\r\n\r\n",
+			"GET http://example.com/res?x=1 HTTP/1.1\r\nHost: example.com\r\n\r\n", "GET //res HTTP/1.1\r\nHost: example.com\r\n\r\n"}).Draw(rt, "target-form")
+		rawReq = oddTarget
+	}
 	spec := exchangeSpec{rawRequest: []byte(rawReq), peerAddr: "192.0.2.7:5555", passHost: rapid.Bool().Draw(rt, "pass-host"),
 		plan: backendPlan{response: respBytes, headLen: headLen, cutAt: -1}}
 	// only with a backend that answers completely: when the round trip fails the transport waits for its writer
@@ -249,6 +257,13 @@ func c16prop(r *simkit.Run) {
 	}
 	switch fault {
 	case "none":
+		if oddTarget != "" {
+			r.Probe("request-target-not-in-origin-form")
+			if res.clientErr != nil && res.status == 0 && !strings.Contains(fmt.Sprint(res.clientErr), "EOF") {
+				r.Fail("no-answer", "request %q: the client got neither a response nor a closed connection (%v) %s", strings.SplitN(oddTarget, "\r\n", 2)[0], res.clientErr, ctxt)
+			}
+			break
+		}
 		expectStatus("fault-free relay", status)
 		for _, h := range hdrs {
 			found := false
